@@ -38,11 +38,13 @@ def plan(tier, seed):
         specs = [{"kind": "plain_exh", "i": i, "n": 6, "max_obj": 3, "max_sp": 3, "ncost": 14} for i in range(6)]
         specs += [{"kind": "plain_rand", "i": i, "count": 60, "max_obj": 6, "max_sp": 5} for i in range(4)]
         specs += [{"kind": "super_rand", "i": i, "count": 60, "max_obj": 5, "max_sp": 3, "max_fam": 4} for i in range(6)]
+        specs += [{"kind": "deep", "i": i, "count": 140} for i in range(10)]
         return specs
     specs = [{"kind": "plain_exh", "i": i, "n": 16, "max_obj": 4, "max_sp": 3, "ncost": 20} for i in range(16)]
     specs += [{"kind": "plain_rand", "i": i, "count": 500, "max_obj": 7, "max_sp": 6} for i in range(8)]
     specs += [{"kind": "super_exh", "i": i, "n": 16, "max_obj": 3, "max_sp": 2, "nfam": 2, "ncost": 6} for i in range(16)]
     specs += [{"kind": "super_rand", "i": i, "count": 400, "max_obj": 5, "max_sp": 4, "max_fam": 4} for i in range(24)]
+    specs += [{"kind": "deep", "i": i, "count": 1200} for i in range(32)]
     return specs
 
 
@@ -217,6 +219,17 @@ def run(ctx, spec):
                         check_case(ctx, {"kind": "c05", "algos": algos, "G": Gn, "S": Sn, "leafmap": lm, "syn": syn, "costs": c})
                         if ctx.too_many():
                             return
+    elif kind == "deep":
+        rng = ctx.rng("deep")
+        for k in range(spec["count"]):
+            ordered = k % 4 == 0
+            algos = ["ext_spfs"] if ordered else ["superdtl", "base_uspfs"]
+            case = gen.deep_super_case(rng, ordered=ordered, max_obj=6 if ordered else 7, max_fam=4 if ordered else 5)
+            case.update(kind="c05", algos=algos)
+            check_case(ctx, case)
+            ctx.count("deep_cases")
+            if ctx.too_many():
+                return
     else:
         rng = ctx.rng("super")
         for k in range(spec["count"]):
